@@ -8,6 +8,7 @@
  *        everything outside the block is ASan redzone.  src is an exact-size heap copy.
  *   strncpy_roomy | strncat_roomy <size> <src> <buf0> = {buf=[..],ret=T|F}   declared size up to INT_MAX, buf0 = the bytes the
  *        reference models (old string + source + NUL); the block is exactly that long, a guard byte follows
+ *   strncpy_alias <size> <k> <mem> = {buf=[mem afterwards],ret=T|F}   spiftool_safe_strncpy(buf, buf + k, size): same buffer
  *   substr  <s> <idx> <cnt>     = [..] | -                      spiftool_substr (NULL = "-")
  *   chomp|condense|down|up|rev <s> = [..]      the in-place helper on an exact-size heap copy of s (len+1 bytes:
  *        byte -1 and byte len+1 are redzone); the returned pointer must be the argument (condense: may be realloc'd)
@@ -59,6 +60,27 @@ static const char *copy_op(int cat, int roomy, const vh_step_t *st, vh_sb *ret) 
     }
     sb_puts(ret, "{buf="); sb_bytes(ret, dest, (size_t) size); sb_puts(ret, ",ret="); sb_bool(ret, r ? 1 : 0); sb_putc(ret, '}');
     free(blk); free(src); free(b0);
+    return bad;
+}
+
+/* strncpy_alias <size> <k> <mem>: safe_strncpy(buf, buf + k, size) with buf = the bytes of mem inside an exact-size block between
+ * two guard zones: source and destination are the SAME buffer (k = 0: truncation in place; k > 0: a tail moved to the front) */
+static const char *alias_op(const vh_step_t *st, vh_sb *ret) {
+    long size = vh_int(st->args[0]), k = vh_int(st->args[1]), i; size_t ml;
+    unsigned char *m = vh_bytes(st->args[2], &ml, 0), *blk, *dest; spif_bool_t r; const char *bad = NULL;
+    if (size < 1 || k < 0 || (size_t) k >= ml || (size_t) size > ml || !memchr(m + k, 0, ml - (size_t) k)) { free(m); return "bad_case:alias"; }
+    blk = (unsigned char *) malloc(ml + 2 * GUARD);
+    memset(blk, GBYTE, ml + 2 * GUARD);
+    dest = blk + GUARD;
+    memcpy(dest, m, ml);
+    errno = ERANGE;
+    r = spiftool_safe_strncpy((spif_charptr_t) dest, (spif_charptr_t) (dest + k), (spif_int32_t) size);
+    for (i = 0; i < GUARD && !bad; i++) {
+        if (blk[GUARD - 1 - i] != GBYTE) { snprintf(msg, sizeof(msg), "wrote_before_dest:byte_-%ld", i + 1); bad = msg; }
+        else if (blk[GUARD + ml + (size_t) i] != GBYTE) { snprintf(msg, sizeof(msg), "wrote_past_buffer:byte_+%ld", i); bad = msg; }
+    }
+    sb_puts(ret, "{buf="); sb_bytes(ret, dest, ml); sb_puts(ret, ",ret="); sb_bool(ret, r ? 1 : 0); sb_putc(ret, '}');
+    free(blk); free(m);
     return bad;
 }
 
@@ -140,6 +162,7 @@ static const char *do_step(const vh_step_t *st, vh_sb *ret, vh_sb *state) {
     sb_putc(state, '-');
     if (!strcmp(op, "strncpy") && st->nargs == 3) return copy_op(0, 0, st, ret);
     if (!strcmp(op, "strncat") && st->nargs == 3) return copy_op(1, 0, st, ret);
+    if (!strcmp(op, "strncpy_alias") && st->nargs == 3) return alias_op(st, ret);
     if (!strcmp(op, "strncpy_roomy") && st->nargs == 3) return copy_op(0, 1, st, ret);
     if (!strcmp(op, "strncat_roomy") && st->nargs == 3) return copy_op(1, 1, st, ret);
     if (!strcmp(op, "al") && (st->nargs == 3 || st->nargs == 4)) return aligned_op(st, ret);
